@@ -20,6 +20,12 @@ def main(argv=None):
     pid = a.pid.upper()
     os.environ.setdefault("PYTHONHASHSEED", "0")
     os.environ["DULWICH_VERIF"] = "1"
+    from .core import REPO
+    import importlib.util
+    origin = importlib.util.find_spec("dulwich").origin      # does not import the package
+    if os.path.realpath(os.path.dirname(os.path.dirname(origin))) != os.path.realpath(REPO):
+        print(f"MACHINERY-FAILURE property={pid}: dulwich would be imported from {origin}, expected {REPO}", file=sys.stderr)
+        return 2
     try:
         mod = importlib.import_module(f"harness.props.{pid.lower()}")
     except ModuleNotFoundError as e:
